@@ -539,7 +539,9 @@ Inductive c16_case :=
      stored entry, reported copy; QRCodeText *)
   | KCfg (c : mcfg) (own : bytes) (t : list bytes) (m : elements) (e r : option mentry) (q : bytes)
   (* arbitrary TXT slice -> parseTxt -> manager (own SKI) -> stored entry, reported copy *)
-  | KTxt (own : bytes) (t : list bytes) (m : elements) (e r : option mentry).
+  | KTxt (own : bytes) (t : list bytes) (m : elements) (e r : option mentry)
+  (* shortenString(s, n) for arbitrary n *)
+  | KShort (s : bytes) (n : N) (o : bytes).
 
 Definition oentry_eqb := option_eqb entry_eqb.
 
@@ -559,4 +561,8 @@ Definition check_c16 (k : c16_case) : codes :=
       let me := entry_of_txt own mm in
       if map_equiv mm m && oentry_eqb me e && oentry_eqb (option_map report_copy me) r
       then [] else [1]
+  | KShort s n o =>
+      (if bytes_eqb (shorten (fl_rune fl) s n) o then [] else [1]) ++
+      (if short_utf8 s o then [] else [15]) ++
+      (if short_ok n (s, o) then [] else [16])
   end.
